@@ -366,6 +366,15 @@ def Expr.ok : Expr → Prop
   | .binding n v _ b a => solidT n ∧ v.ok ∧ TrivOk b ∧ TrivOk a
   | .paren v _ _ _ _ b a => v.ok ∧ TrivOk b ∧ TrivOk a
   | .app n x _ fa b a => n.ok ∧ x.ok ∧ (∀ c ∈ fa, cOk c) ∧ TrivOk b ∧ TrivOk a
+  -- `with` / `assert` from well-formed trees: the interstitial lists hold layout markers only
+  | .wth env body awc _ asc b a => env.ok ∧ body.ok ∧ cm awc = [] ∧ asc = [] ∧ TrivOk b ∧ TrivOk a
+  | .asrt cond body aac bsc b a => cond.ok ∧ body.ok ∧ cm aac = [] ∧ cm bsc = [] ∧ TrivOk b ∧ TrivOk a
+  | .sel e attrs _ ab b a => e.ok ∧ attrs ≠ [] ∧ (∀ x ∈ attrs, solidT x) ∧ cm ab = [] ∧ TrivOk b ∧ TrivOk a
+  | .selOr e attrs _ ab d _ db b a =>
+    e.ok ∧ attrs ≠ [] ∧ (∀ x ∈ attrs, solidT x) ∧ cm ab = [] ∧ d.ok ∧ cm db = [] ∧ TrivOk b ∧ TrivOk a
+  | .lam n bcc _ _ body b a => solidT n ∧ cm bcc = [] ∧ body.ok ∧ TrivOk b ∧ TrivOk a
+  | .un op e _ bt b a => (solidT op ∧ op ≠ ['+', '+']) ∧ e.ok ∧ cm bt = [] ∧ TrivOk b ∧ TrivOk a
+  | .bin op l r _ _ b a => solidT op ∧ l.ok ∧ r.ok ∧ TrivOk b ∧ TrivOk a
 def allOk : List Expr → Prop
   | [] => True
   | e :: rest => e.ok ∧ allOk rest
@@ -392,6 +401,17 @@ def Expr.lexOut : Expr → Bool → List Lex
     cm b ++ [.tok ['(']] ++ v.lexOut false ++ [.tok [')']] ++ (if na then [] else cm a)
   | .app n x _ fa b a, na =>
     cm b ++ n.lexOut false ++ cmC fa ++ x.lexOut false ++ (if na then [] else cm a)
+  | .wth env body _ _ _ b a, na =>
+    cm b ++ [.tok kwWith] ++ env.lexOut false ++ [.tok [';']] ++ body.lexOut false ++ (if na then [] else cm a)
+  -- the trailing trivia of an `assert` are written after its `;`, in front of the body
+  | .asrt cond body _ _ b a, na =>
+    cm b ++ [.tok kwAssert] ++ cond.lexOut false ++ [.tok [';']] ++ (if na then [] else cm a) ++ body.lexOut false
+  | .sel e attrs _ _ b a, na => cm b ++ e.lexOut false ++ attrLex attrs ++ (if na then [] else cm a)
+  | .selOr e attrs _ _ d _ _ b a, na =>
+    cm b ++ e.lexOut false ++ attrLex attrs ++ [.tok ['o', 'r']] ++ d.lexOut false ++ (if na then [] else cm a)
+  | .lam n _ _ _ body b a, na => cm b ++ [.tok n, .tok [':']] ++ body.lexOut false ++ (if na then [] else cm a)
+  | .un op e _ _ b a, na => cm b ++ [.tok op] ++ e.lexOut false ++ (if na then [] else cm a)
+  | .bin op l r _ _ b a, na => cm b ++ l.lexOut false ++ [.tok op] ++ r.lexOut false ++ (if na then [] else cm a)
 def lexOutAll : List Expr → List Lex
   | [] => []
   | e :: rest => e.lexOut false ++ lexOutAll rest
@@ -504,6 +524,172 @@ theorem fnAfterP_lex : ∀ (cs : List Comment) (acc : List FP) (i : Nat), (∀ c
       refine ⟨?_, this.2⟩
       rw [this.1]; simp [lexOf_ite, cmtP_lex hc0, cmC]
 
+theorem ok_after {e : Expr} (h : e.ok) : TrivOk e.after := by
+  cases e with
+  | leaf k t b a => exact h.2.2
+  | list v m inn b a => exact h.2.2.2
+  | set v m r inn b a => exact h.2.2.2
+  | binding n v g b a => exact h.2.2.2
+  | paren v lg tg lb tb b a => exact h.2.2
+  | app n x g fa b a => exact h.2.2.2.2
+  | wth e bd c g s b a => exact h.2.2.2.2.2
+  | asrt c bd x y b a => exact h.2.2.2.2.2
+  | sel e ats g ab b a => exact h.2.2.2.2.2
+  | selOr e ats g ab d dg db b a => exact h.2.2.2.2.2.2.2
+  | lam n c g k bd b a => exact h.2.2.2.2
+  | un o e g bt b a => exact h.2.2.2.2
+  | bin o l r x y b a => exact h.2.2.2.2
+
+theorem ok_before {e : Expr} (h : e.ok) : TrivOk e.before := by
+  cases e with
+  | leaf k t b a => exact h.2.1
+  | list v m inn b a => exact h.2.2.1
+  | set v m r inn b a => exact h.2.2.1
+  | binding n v g b a => exact h.2.2.1
+  | paren v lg tg lb tb b a => exact h.2.1
+  | app n x g fa b a => exact h.2.2.2.1
+  | wth e bd c g s b a => exact h.2.2.2.2.1
+  | asrt c bd x y b a => exact h.2.2.2.2.1
+  | sel e ats g ab b a => exact h.2.2.2.2.1
+  | selOr e ats g ab d dg db b a => exact h.2.2.2.2.2.2.1
+  | lam n c g k bd b a => exact h.2.2.2.1
+  | un o e g bt b a => exact h.2.2.2.1
+  | bin o l r x y b a => exact h.2.2.2.1
+
+theorem leafBefore_nil' (k : LeafKind) (t : Text) (i : Nat) (inl : Bool) : leafBefore k t [] i inl = [] := by
+  unfold leafBefore; split
+  · simp [trimLeadingLayoutTrivia]
+  · rfl
+
+theorem endsWithNL_spaces_append (i : Nat) {X : Text} (hX : X ≠ []) : endsWithNL (spaces i ++ X) = endsWithNL X :=
+  endsWithNL_append_of_ne_nil _ _ hX
+
+theorem addTriviaP_nil_split (a : List Trivia) (core : List FP) (i : Nat) :
+    addTriviaP [] a core i false = .ws (spaces i) :: addTriviaP [] a core i true := by
+  simp [addTriviaP, fmtP, fmtGoP, indentP]
+
+/-- without leading trivia, the own-line rendering is the indentation run followed by the inline one -/
+theorem rebuildAP_indent_split {e : Expr} (hok : e.ok) (h : e.before = []) (na : Bool) (i : Nat) :
+    e.rebuildAP na i false = .ws (spaces i) :: e.rebuildAP na i true := by
+  cases e with
+  | leaf k t b a =>
+    simp only [Expr.before] at h; subst h
+    simp [Expr.rebuildAP, addTriviaP, leafBefore_nil', fmtP, fmtGoP, indentP]
+  | list v m inn b a =>
+    simp only [Expr.before] at h; subst h
+    cases v with
+    | nil => simp only [Expr.rebuildAP]; split <;> simp [multilineBlockP, fmtP, fmtGoP, indentP]
+    | cons x xs => simp only [Expr.rebuildAP]; split <;> simp [multilineBlockP, fmtP, fmtGoP, indentP]
+  | set v m r inn b a =>
+    simp only [Expr.before] at h; subst h
+    cases v with
+    | nil => simp only [Expr.rebuildAP]; split <;> simp [multilineBlockP, addTriviaP, fmtP, fmtGoP, indentP]
+    | cons x xs => simp only [Expr.rebuildAP]; split <;> simp [multilineBlockP, addTriviaP, fmtP, fmtGoP, indentP]
+  | binding n v g b a =>
+    simp only [Expr.before] at h; subst h
+    simp [Expr.rebuildAP, fmtP, fmtGoP, indentP]
+  | paren v lg tg lb tb b a =>
+    simp only [Expr.before] at h; subst h
+    simp [Expr.rebuildAP, addTriviaP, fmtP, fmtGoP, indentP]
+  | app n x g fa b a =>
+    simp only [Expr.before] at h; subst h
+    simp [Expr.rebuildAP, addTriviaP, fmtP, fmtGoP, indentP]
+  | wth e bd c g s b a =>
+    simp only [Expr.before] at h; subst h
+    simp [Expr.rebuildAP, addTriviaP, fmtP, fmtGoP, indentP]
+  | sel e ats g ab b a =>
+    simp only [Expr.before] at h; subst h
+    simp [Expr.rebuildAP, addTriviaP, fmtP, fmtGoP, indentP]
+  | selOr e ats g ab d dg db b a =>
+    simp only [Expr.before] at h; subst h
+    simp [Expr.rebuildAP, addTriviaP, fmtP, fmtGoP, indentP]
+  | lam n c g k bd b a =>
+    simp only [Expr.before] at h; subst h
+    simp [Expr.rebuildAP, addTriviaP, fmtP, fmtGoP, indentP]
+  | bin o l r x y b a =>
+    simp only [Expr.before] at h; subst h
+    simp [Expr.rebuildAP, addTriviaP, fmtP, fmtGoP, indentP]
+  | un o e g bt b a =>
+    simp only [Expr.before] at h; subst h
+    have hne : (o == ['+', '+']) = false := by
+      have := hok.1.2
+      simpa using this
+    simp [Expr.rebuildAP, addTriviaP, fmtP, fmtGoP, indentP, hne]
+  | asrt c bd x y b a =>
+    simp only [Expr.before] at h; subst h
+    simp only [Expr.rebuildAP, addTriviaP_nil_split, List.cons_append, concat_cons, text_ws]
+    rw [endsWithNL_spaces_append i (by simp [addTriviaP, fmtP, fmtGoP, indentP, kwAssert])]
+
+theorem attrP_lex : ∀ (attrs : List Text), attrs ≠ [] → (∀ x ∈ attrs, solidT x) →
+    lexOf (FP.tok ['.'] :: attrP attrs) = attrLex attrs ∧ Solid (FP.tok ['.'] :: attrP attrs)
+  | [], h, _ => absurd rfl h
+  | [a], _, hs => by
+    refine ⟨by simp [attrP, attrLex], ?_⟩
+    exact solid_tokc '.' (by decide) (solid_tok (hs a (List.mem_cons_self ..)))
+  | a :: b :: rest, _, hs => by
+    have ih := attrP_lex (b :: rest) (by simp) (fun x hx => hs x (List.mem_cons_of_mem _ hx))
+    refine ⟨?_, ?_⟩
+    · simp only [attrP, attrLex, lexOf_tok] at ih ⊢
+      rw [ih.1]
+    · exact solid_tokc '.' (by decide) (solid_cons (p := FP.tok a) (hs a (List.mem_cons_self ..)) ih.2)
+
+/-- the four layouts of a binary expression: left, separator, operator, separator, right -/
+theorem binCoreP_shape (l ro ri : List FP) (op : Text) (ogl rgl i : Nat) :
+    ∃ w1 w2 R, binCoreP l ro ri op ogl rgl i = l ++ (FP.ws w1 :: FP.tok op :: FP.ws w2 :: R) ∧ (R = ro ∨ R = ri) := by
+  unfold binCoreP
+  split
+  · split
+    · exact ⟨List.replicate ogl '\n' ++ spaces i, List.replicate rgl '\n', ro, by simp, Or.inl rfl⟩
+    · exact ⟨List.replicate ogl '\n' ++ spaces i, [' '], ri, by simp, Or.inr rfl⟩
+  · split
+    · exact ⟨[' '], List.replicate rgl '\n', ro, by simp, Or.inl rfl⟩
+    · exact ⟨[' '], [' '], ri, by simp, Or.inr rfl⟩
+
+theorem dropCharsP_ws_spaces (i : Nat) (rest : List FP) (hi : i ≠ 0) :
+    dropCharsP (.ws (spaces i) :: rest) i = rest := by
+  have hl : (spaces i).length = i := by simp [spaces]
+  cases rest with
+  | nil => simp [dropCharsP, hi, hl]
+  | cons q r => simp [dropCharsP, hi, hl]
+
+theorem noLayoutOrComment_nil {ts : List Trivia} (hok : TrivOk ts) (h : hasLayoutOrComment ts = false) : ts = [] := by
+  cases ts with
+  | nil => rfl
+  | cons t r =>
+    exfalso
+    cases t with
+    | comma => exact hok.1 (List.mem_cons_self ..)
+    | emptyLine => simp [hasLayoutOrComment] at h
+    | linebreak => simp [hasLayoutOrComment] at h
+    | comment c => simp [hasLayoutOrComment] at h
+
+/-- the body of a `with`: a separator, then the body rendered inline or on its own line -/
+theorem withBodyPartP_shape {body : Expr} (hbd : body.ok) (awc : List Trivia) (asc : List Comment) (i : Nat) :
+    ∃ b' w, withBodyPartP (withBodyForce awc asc body.before) body.absorbable
+      (body.rebuildAP false i true) (body.rebuildAP false i false) i = .ws w :: body.rebuildAP false i b' := by
+  unfold withBodyPartP
+  split
+  · rename_i hc
+    simp only [Bool.and_eq_true, Bool.not_eq_true'] at hc
+    have hbf : body.before = [] := by
+      have hf := hc.1
+      unfold withBodyForce at hf
+      simp only [Bool.or_eq_false_iff] at hf
+      exact noLayoutOrComment_nil (ok_before hbd) hf.2
+    unfold stripIndentPrefixP
+    split
+    · rename_i hcond
+      simp only [Bool.and_eq_true, bne_iff_ne, ne_eq] at hcond
+      rw [rebuildAP_indent_split hbd hbf, dropCharsP_ws_spaces i _ hcond.1]
+      exact ⟨true, _, rfl⟩
+    · exact ⟨false, _, rfl⟩
+  · split
+    · exact ⟨false, _, rfl⟩
+    · exact ⟨true, _, rfl⟩
+
+theorem solidT_kwWith : solidT kwWith := ⟨by simp [kwWith], by simp [kwWith, endsWithNL]⟩
+theorem solidT_kwAssert : solidT kwAssert := ⟨by simp [kwAssert], by simp [kwAssert, endsWithNL]⟩
+
 mutual
 theorem rebuildAP_lex : (e : Expr) → e.ok → ∀ (na : Bool) (i : Nat) (b : Bool),
     lexOf (e.rebuildAP na i b) = e.lexOut na ∧ Solid (e.rebuildAP na i b)
@@ -605,6 +791,13 @@ theorem rebuildAP_lex : (e : Expr) → e.ok → ∀ (na : Bool) (i : Nat) (b : B
       | binding n v g b a => exact hv.2.2.2
       | paren v lg tg lb tb b a => exact hv.2.2
       | app n x g fa b a => exact hv.2.2.2.2
+      | wth e bd c g s b a => exact hv.2.2.2.2.2
+      | asrt c bd x y b a => exact hv.2.2.2.2.2
+      | sel e ats g ab b a => exact hv.2.2.2.2.2
+      | selOr e ats g ab d dg db b a => exact hv.2.2.2.2.2.2.2
+      | lam n c g k bd b a => exact hv.2.2.2.2
+      | un o e g bt b a => exact hv.2.2.2.2
+      | bin o l r x y b a => exact hv.2.2.2.2
     have hbt := bindingTailP_lex (trivOk_append hva (ite_nil_ok na ha)) i
     have hi := indentP_lex i b
     simp only [Expr.rebuildAP, Expr.lexOut]
@@ -682,6 +875,171 @@ theorem rebuildAP_lex : (e : Expr) → e.ok → ∀ (na : Bool) (i : Nat) (b : B
       hb (ite_nil_ok na ha) (solid_append hf.2 (solid_wsc _ hargs.2)) i b
     refine ⟨?_, hat.2⟩
     rw [hat.1]; simp [hf.1, ihn.1, hargs.1, cm_ite_nil]
+  | .wth env body awc awGap asc before after, hok, na, i, b => by
+    obtain ⟨he, hbd, _, hasc, hb, ha⟩ := hok
+    subst hasc
+    have ihe := rebuildAP_lex env he false
+    have ihb := rebuildAP_lex body hbd false i
+    simp only [Expr.rebuildAP, Expr.lexOut]
+    have henv : lexOf (if (withLayout awc awGap).onNewline = true
+          then env.rebuildAP false ((withLayout awc awGap).indent.getD i) false else env.rebuildAP false i true) =
+          env.lexOut false ∧
+        Solid (if (withLayout awc awGap).onNewline = true
+          then env.rebuildAP false ((withLayout awc awGap).indent.getD i) false else env.rebuildAP false i true) := by
+      split
+      · exact ihe _ _
+      · exact ihe _ _
+    have hbody : lexOf (withBodyPartP (withBodyForce awc [] body.before) body.absorbable
+          (body.rebuildAP false i true) (body.rebuildAP false i false) i) = body.lexOut false ∧
+        Solid (withBodyPartP (withBodyForce awc [] body.before) body.absorbable
+          (body.rebuildAP false i true) (body.rebuildAP false i false) i) := by
+      obtain ⟨b', w, hsh⟩ := withBodyPartP_shape hbd awc [] i
+      rw [hsh]
+      exact ⟨by simp [(ihb b').1], solid_wsc _ (ihb b').2⟩
+    revert henv hbody
+    generalize (if (withLayout awc awGap).onNewline = true
+          then env.rebuildAP false ((withLayout awc awGap).indent.getD i) false else env.rebuildAP false i true) = envP
+    generalize (withBodyPartP (withBodyForce awc [] body.before) body.absorbable
+          (body.rebuildAP false i true) (body.rebuildAP false i false) i) = bodyP
+    intro henv hbody
+    have hat := addTriviaP_lex
+      (core := [FP.tok kwWith, FP.ws ((formatInterstitialTriviaWithSeparator awc (withLayout awc awGap) i
+          (includeIndent := false) (dropBlankIfItems := false)).1 ++
+          (formatInterstitialTriviaWithSeparator awc (withLayout awc awGap) i
+          (includeIndent := false) (dropBlankIfItems := false)).2)] ++ envP ++
+        [FP.tok [';'], FP.ws (formatInlineCommentSuffix [])] ++ bodyP)
+      hb (ite_nil_ok na ha)
+      (solid_append (solid_append (solid_append (solid_cons (p := FP.tok kwWith) solidT_kwWith (solid_wsc _ solid_nil)) henv.2)
+        (solid_tokc ';' (by decide) (solid_wsc _ solid_nil))) hbody.2) i b
+    refine ⟨?_, hat.2⟩
+    rw [hat.1]; simp [henv.1, hbody.1, cm_ite_nil]
+  | .asrt cond body aac bsc before after, hok, na, i, b => by
+    obtain ⟨hc, hbd, _, _, hb, ha⟩ := hok
+    have ihc := rebuildAP_lex cond hc false
+    have ihb := rebuildAP_lex body hbd false i false
+    simp only [Expr.rebuildAP, Expr.lexOut]
+    generalize (triviaForcesNewline aac || !inlineIsAbsorbed (concat (cond.rebuildAP false i true))) = onNL
+    have hcond : lexOf (if onNL = true then cond.rebuildAP false (i + 2) false else cond.rebuildAP false i true) =
+          cond.lexOut false ∧
+        Solid (if onNL = true then cond.rebuildAP false (i + 2) false else cond.rebuildAP false i true) := by
+      split
+      · exact ihc _ _
+      · exact ihc _ _
+    revert hcond
+    generalize (if onNL = true then cond.rebuildAP false (i + 2) false else cond.rebuildAP false i true) = condP
+    intro hcond
+    generalize (formatInterstitialTriviaWithSeparator aac (asrtLayout onNL i) (if onNL = true then i + 2 else i)
+      (includeIndent := false) (stripLeadingNLAfter := some (concat condP))) = r1
+    generalize (if bsc.isEmpty = true then (([], []) : Text × Text)
+      else formatInterstitialTriviaWithSeparator bsc { onNewline := true, blankLine := false, indent := some i } i
+        (inlineSep := [' ']) (stripLeadingNLAfter := some (concat condP))) = r2
+    have hat := addTriviaP_lex (core := [FP.tok kwAssert, FP.ws (r1.1 ++ r1.2)] ++ condP ++ [FP.ws (r2.1 ++ r2.2), FP.tok [';']])
+      hb (ite_nil_ok na ha)
+      (solid_append (solid_append (solid_cons (p := FP.tok kwAssert) solidT_kwAssert (solid_wsc _ solid_nil)) hcond.2)
+        (solid_wsc _ (solid_tok (solidT_lit ';' (by decide))))) i b
+    refine ⟨?_, solid_append (solid_append hat.2 (solid_wsc _ solid_nil)) ihb.2⟩
+    simp only [lexOf_append, hat.1, lexOf_ws, lexOf_nil, ihb.1]
+    simp [hcond.1, cm_ite_nil]
+  | .sel expr attrs g ab before after, hok, na, i, b => by
+    obtain ⟨he, hne, hat, _, hb, ha⟩ := hok
+    have ihe := rebuildAP_lex expr he false i true
+    simp only [Expr.rebuildAP, Expr.lexOut]
+    have hap := attrP_lex attrs hne hat
+    have hatp := addTriviaP_lex (core := expr.rebuildAP false i true ++
+        [FP.ws (selSep (concat (expr.rebuildAP false i true)) g ab i), FP.tok ['.']] ++ attrP attrs)
+      hb (ite_nil_ok na ha)
+      (by
+        rw [show expr.rebuildAP false i true ++ [FP.ws (selSep (concat (expr.rebuildAP false i true)) g ab i), FP.tok ['.']] ++
+            attrP attrs = expr.rebuildAP false i true ++ (FP.ws (selSep (concat (expr.rebuildAP false i true)) g ab i) ::
+            (FP.tok ['.'] :: attrP attrs)) from by simp]
+        exact solid_append ihe.2 (solid_wsc _ hap.2)) i b
+    refine ⟨?_, hatp.2⟩
+    rw [hatp.1]
+    have : lexOf (expr.rebuildAP false i true ++ [FP.ws (selSep (concat (expr.rebuildAP false i true)) g ab i), FP.tok ['.']] ++
+        attrP attrs) = expr.lexOut false ++ attrLex attrs := by
+      rw [show expr.rebuildAP false i true ++ [FP.ws (selSep (concat (expr.rebuildAP false i true)) g ab i), FP.tok ['.']] ++
+          attrP attrs = expr.rebuildAP false i true ++ (FP.ws (selSep (concat (expr.rebuildAP false i true)) g ab i) ::
+          (FP.tok ['.'] :: attrP attrs)) from by simp]
+      rw [lexOf_append, lexOf_ws, hap.1, ihe.1]
+    rw [this]; simp [cm_ite_nil]
+  | .selOr expr attrs g ab d dg db before after, hok, na, i, b => by
+    obtain ⟨he, hne, hat, _, hd, _, hb, ha⟩ := hok
+    have ihe := rebuildAP_lex expr he false i true
+    have ihd := rebuildAP_lex d hd false (selOrIndent dg i) true
+    simp only [Expr.rebuildAP, Expr.lexOut]
+    have hap := attrP_lex attrs hne hat
+    have hcore : lexOf (expr.rebuildAP false i true ++ [FP.ws (selSep (concat (expr.rebuildAP false i true)) g ab i), FP.tok ['.']] ++
+          attrP attrs ++ [FP.ws (selOrSep dg db i), FP.tok ['o', 'r'], FP.ws [' ']] ++
+          d.rebuildAP false (selOrIndent dg i) true) =
+          expr.lexOut false ++ attrLex attrs ++ [Lex.tok ['o', 'r']] ++ d.lexOut false ∧
+        Solid (expr.rebuildAP false i true ++ [FP.ws (selSep (concat (expr.rebuildAP false i true)) g ab i), FP.tok ['.']] ++
+          attrP attrs ++ [FP.ws (selOrSep dg db i), FP.tok ['o', 'r'], FP.ws [' ']] ++
+          d.rebuildAP false (selOrIndent dg i) true) := by
+      rw [show expr.rebuildAP false i true ++ [FP.ws (selSep (concat (expr.rebuildAP false i true)) g ab i), FP.tok ['.']] ++
+          attrP attrs ++ [FP.ws (selOrSep dg db i), FP.tok ['o', 'r'], FP.ws [' ']] ++
+          d.rebuildAP false (selOrIndent dg i) true =
+        expr.rebuildAP false i true ++ (FP.ws (selSep (concat (expr.rebuildAP false i true)) g ab i) ::
+          ((FP.tok ['.'] :: attrP attrs) ++ (FP.ws (selOrSep dg db i) :: FP.tok ['o', 'r'] :: FP.ws [' '] ::
+          d.rebuildAP false (selOrIndent dg i) true))) from by simp]
+      refine ⟨?_, solid_append ihe.2 (solid_wsc _ (solid_append hap.2 (solid_wsc _
+        (solid_cons (p := FP.tok ['o', 'r']) ⟨by simp, by simp [endsWithNL]⟩ (solid_wsc _ ihd.2)))))⟩
+      rw [lexOf_append, lexOf_ws, lexOf_append, hap.1, lexOf_ws, lexOf_tok, lexOf_ws, ihe.1, ihd.1]
+      simp
+    have hatp := addTriviaP_lex hb (ite_nil_ok na ha) hcore.2 i b
+    refine ⟨?_, hatp.2⟩
+    rw [hatp.1, hcore.1]; simp [cm_ite_nil]
+  | .lam name bcc g k body before after, hok, na, i, b => by
+    obtain ⟨hn, _, hbd, hb, ha⟩ := hok
+    have ihb := rebuildAP_lex body hbd false i (k == 0)
+    simp only [Expr.rebuildAP, Expr.lexOut]
+    have hatp := addTriviaP_lex (core := [FP.tok name, FP.ws (lamColonPrefix bcc g i), FP.tok [':'], FP.ws (lamBreak k)] ++
+        body.rebuildAP false i (k == 0)) hb (ite_nil_ok na ha)
+      (solid_append (solid_cons (p := FP.tok name) hn (solid_wsc _ (solid_tokc ':' (by decide) (solid_wsc _ solid_nil)))) ihb.2) i b
+    refine ⟨?_, hatp.2⟩
+    rw [hatp.1]; simp [ihb.1, cm_ite_nil]
+  | .un op expr g bt before after, hok, na, i, b => by
+    obtain ⟨⟨hop, _⟩, he, _, hb, ha⟩ := hok
+    have ihe := rebuildAP_lex expr he false
+    simp only [Expr.rebuildAP, Expr.lexOut]
+    have hexpr : lexOf (if (unLayout bt g).onNewline = true then expr.rebuildAP false ((unLayout bt g).indent.getD i) false
+          else expr.rebuildAP false i true) = expr.lexOut false ∧
+        Solid (if (unLayout bt g).onNewline = true then expr.rebuildAP false ((unLayout bt g).indent.getD i) false
+          else expr.rebuildAP false i true) := by
+      split
+      · exact ihe _ _
+      · exact ihe _ _
+    have hbase : lexOf (if (op == ['+', '+'] && !b) = true then [FP.ws (['\n'] ++ spaces i), FP.tok op] else [FP.tok op]) = [Lex.tok op] ∧
+        Solid (if (op == ['+', '+'] && !b) = true then [FP.ws (['\n'] ++ spaces i), FP.tok op] else [FP.tok op]) := by
+      split
+      · exact ⟨by simp, solid_wsc _ (solid_tok hop)⟩
+      · exact ⟨by simp, solid_tok hop⟩
+    revert hexpr hbase
+    generalize (if (unLayout bt g).onNewline = true then expr.rebuildAP false ((unLayout bt g).indent.getD i) false
+          else expr.rebuildAP false i true) = EP
+    generalize (if (op == ['+', '+'] && !b) = true then [FP.ws (['\n'] ++ spaces i), FP.tok op] else [FP.tok op]) = BP
+    intro hexpr hbase
+    have hatp := addTriviaP_lex (core := BP ++ [FP.ws (unSep bt g i)] ++ EP) hb (ite_nil_ok na ha)
+      (solid_append (solid_append hbase.2 (solid_wsc _ solid_nil)) hexpr.2) i b
+    refine ⟨?_, hatp.2⟩
+    rw [hatp.1]; simp [hbase.1, hexpr.1, cm_ite_nil]
+  | .bin op left right ogl rgl before after, hok, na, i, b => by
+    obtain ⟨hop, hl, hr, hb, ha⟩ := hok
+    have ihl := rebuildAP_lex left hl false i true
+    have ihr := rebuildAP_lex right hr false
+    simp only [Expr.rebuildAP, Expr.lexOut]
+    obtain ⟨w1, w2, R, hsh, hR⟩ := binCoreP_shape (left.rebuildAP false i true)
+      (FP.ws (spaces (ensureIndentPad (concat (right.rebuildAP false (binRightIndent op right i) right.before.isEmpty))
+        (binRightIndent op right i))) :: right.rebuildAP false (binRightIndent op right i) right.before.isEmpty)
+      (right.rebuildAP false i true) op ogl rgl i
+    rw [hsh]
+    have hRl : lexOf R = right.lexOut false ∧ Solid R := by
+      rcases hR with h | h <;> subst h
+      · exact ⟨by simp [(ihr _ _).1], solid_wsc _ (ihr _ _).2⟩
+      · exact ihr _ _
+    have hatp := addTriviaP_lex (core := left.rebuildAP false i true ++ (FP.ws w1 :: FP.tok op :: FP.ws w2 :: R))
+      hb (ite_nil_ok na ha) (solid_append ihl.2 (solid_wsc _ (solid_cons (p := FP.tok op) hop (solid_wsc _ hRl.2)))) i b
+    refine ⟨?_, hatp.2⟩
+    rw [hatp.1]; simp [ihl.1, hRl.1, cm_ite_nil]
 theorem rebuildAllP_lex : (es : List Expr) → allOk es → ∀ (i : Nat) (b : Bool),
     ((rebuildAllP es i b).map lexOf).flatten = lexOutAll es ∧ ∀ x ∈ rebuildAllP es i b, Solid x
   | [], _, i, b => ⟨rfl, by intro x hx; cases hx⟩
@@ -702,6 +1060,13 @@ theorem previewP_lex : (e : Expr) → e.ok → ∀ (i : Nat) (p : List FP), e.pr
   | .binding .., _, i, p, h => by simp [Expr.previewP] at h
   | .paren .., _, i, p, h => by simp [Expr.previewP] at h
   | .app .., _, i, p, h => by simp [Expr.previewP] at h
+  | .wth .., _, i, p, h => by simp [Expr.previewP] at h
+  | .asrt .., _, i, p, h => by simp [Expr.previewP] at h
+  | .sel .., _, i, p, h => by simp [Expr.previewP] at h
+  | .selOr .., _, i, p, h => by simp [Expr.previewP] at h
+  | .lam .., _, i, p, h => by simp [Expr.previewP] at h
+  | .un .., _, i, p, h => by simp [Expr.previewP] at h
+  | .bin .., _, i, p, h => by simp [Expr.previewP] at h
   | .list value ml inner before after, hok, i, p, h => by
     obtain ⟨hv, hin, hb, ha⟩ := hok
     have ih := fun i b => rebuildAllP_lex value hv i b
